@@ -781,20 +781,26 @@ func (s *Sim) streamHandler(rs *rpcState, stream grpc.ServerStream) (err error) 
 		case "sethdr":
 			ev := s.begin(r.ID, 'h', 0, "sethdr")
 			ev.MD = kvToMD(op.MD)
-			opErr = guard(ev, func() error { return stream.SetHeader(kvToMD(op.MD)) })
+			md := kvToMD(op.MD)
+			opErr = guard(ev, func() error { return stream.SetHeader(md) })
 			s.end(ev, opErr)
+			s.scribble(md, op)
 			opErr = nil // header errors are not fatal to scripted handlers
 		case "sendhdr":
 			ev := s.begin(r.ID, 'h', 0, "sendhdr")
 			ev.MD = kvToMD(op.MD)
-			opErr = guard(ev, func() error { return stream.SendHeader(kvToMD(op.MD)) })
+			md := kvToMD(op.MD)
+			opErr = guard(ev, func() error { return stream.SendHeader(md) })
 			s.end(ev, opErr)
+			s.scribble(md, op)
 			opErr = nil
 		case "settlr":
 			ev := s.begin(r.ID, 'h', 0, "settlr")
 			ev.MD = kvToMD(op.MD)
-			_ = guard(ev, func() error { stream.SetTrailer(kvToMD(op.MD)); return nil })
+			md := kvToMD(op.MD)
+			_ = guard(ev, func() error { stream.SetTrailer(md); return nil })
 			s.end(ev, nil)
+			s.scribble(md, op)
 		case "sleep":
 			ev := s.begin(r.ID, 'h', 0, "sleep")
 			s.sleep(time.Duration(op.D))
@@ -897,6 +903,9 @@ func (s *Sim) unaryHandler(rs *rpcState, ctx context.Context, dec func(any) erro
 				if op.N == 1 || (e != nil && op.Msg == nil) {
 					return nil, e
 				}
+				if op.Msg == nil {
+					op.Msg = &MsgSpec{Kind: 1}
+				}
 				obj := op.Msg.Build()
 				if op.N == 2 {
 					var nilMsg *grpchantesting.Message
@@ -926,18 +935,24 @@ func (s *Sim) unaryOp(rs *rpcState, ctx context.Context, op Op) {
 	case "sethdr":
 		ev := s.begin(r.ID, 'h', 0, "sethdr")
 		ev.MD = kvToMD(op.MD)
-		err := guard(ev, func() error { return grpc.SetHeader(ctx, kvToMD(op.MD)) })
+		md := kvToMD(op.MD)
+		err := guard(ev, func() error { return grpc.SetHeader(ctx, md) })
 		s.end(ev, err)
+		s.scribble(md, op)
 	case "sendhdr":
 		ev := s.begin(r.ID, 'h', 0, "sendhdr")
 		ev.MD = kvToMD(op.MD)
-		err := guard(ev, func() error { return grpc.SendHeader(ctx, kvToMD(op.MD)) })
+		md := kvToMD(op.MD)
+		err := guard(ev, func() error { return grpc.SendHeader(ctx, md) })
 		s.end(ev, err)
+		s.scribble(md, op)
 	case "settlr":
 		ev := s.begin(r.ID, 'h', 0, "settlr")
 		ev.MD = kvToMD(op.MD)
-		err := guard(ev, func() error { return grpc.SetTrailer(ctx, kvToMD(op.MD)) })
+		md := kvToMD(op.MD)
+		err := guard(ev, func() error { return grpc.SetTrailer(ctx, md) })
 		s.end(ev, err)
+		s.scribble(md, op)
 	case "sleep":
 		ev := s.begin(r.ID, 'h', 0, "sleep")
 		s.sleep(time.Duration(op.D))
@@ -949,6 +964,23 @@ func (s *Sim) unaryOp(rs *rpcState, ctx context.Context, op Op) {
 	case "mutate":
 		s.mutate(rs, 'h', 0, op.Ref)
 	}
+}
+
+// scribble: the handler re-uses the metadata object it has just handed to the
+// library (a gRPC server copies it, so this is legitimate): its values are
+// overwritten and a key is added. Nothing of that may reach the client.
+func (s *Sim) scribble(md metadata.MD, op Op) {
+	if op.N != 1 {
+		return
+	}
+	for k, vs := range md {
+		for i := range vs {
+			vs[i] = "SCRIBBLED"
+		}
+		md[k] = append(vs, "SCRIBBLED-EXTRA")
+	}
+	md["scribbled-key"] = []string{"x"}
+	s.probe("md-scribbled")
 }
 
 // waitCtx blocks until the handler's context is done. So that a context that
